@@ -56,7 +56,50 @@ if os.path.exists(shim_file):
                     open(dst, "w").write(new)
                 replace[os.path.join(pkgdir, f)] = dst
 
-ov = json.dumps({"Replace": replace}, indent=1, sort_keys=True)
-p = os.path.join(OUT, "overlay.json")
-if not os.path.exists(p) or open(p).read() != ov:
-    open(p, "w").write(ov)
+def write_overlay(name, rep):
+    ov = json.dumps({"Replace": rep}, indent=1, sort_keys=True)
+    p = os.path.join(OUT, name)
+    if not os.path.exists(p) or open(p).read() != ov:
+        open(p, "w").write(ov)
+
+write_overlay("overlay.json", replace)
+
+# 3. profiles: /verif/ovl/profiles/<name>.txt with lines "maprange <pkg path>" give
+#    overlay-<name>.json = base overlay + every non-test file of the package rewritten by
+#    engine/cmd/maprange (map iteration order becomes an explorable choice, see engine/vmap).
+import subprocess
+prof_dir = os.path.join(VERIF, "ovl", "profiles")
+tool = os.path.join(VERIF, ".cache", "bin", "maprange")
+if os.path.isdir(prof_dir):
+    for pf in sorted(os.listdir(prof_dir)):
+        if not pf.endswith(".txt"):
+            continue
+        rep = dict(replace)
+        for line in open(os.path.join(prof_dir, pf)):
+            line = line.split("#")[0].strip()
+            if not line:
+                continue
+            kind, rel = line.split()[:2]
+            if kind != "maprange":
+                print("overlay: unknown profile directive", kind, file=sys.stderr)
+                sys.exit(1)
+            pkgdir = os.path.join(REPO, rel)
+            for f in sorted(os.listdir(pkgdir)):
+                if not f.endswith(".go") or f.endswith("_test.go"):
+                    continue
+                src = rep.get(os.path.join(pkgdir, f), os.path.join(pkgdir, f))
+                dst = os.path.join(GEN, "mr__" + rel.replace("/", "__") + "__" + f)
+                tmp = dst + ".tmp"
+                r = subprocess.run([tool, src, tmp, rel + "/" + f], capture_output=True, text=True)
+                if r.returncode != 0:
+                    print("overlay: maprange failed on", src, r.stderr, file=sys.stderr)
+                    sys.exit(1)
+                if r.stdout.strip() == "0":
+                    os.remove(tmp)
+                    continue
+                if not os.path.exists(dst) or open(dst).read() != open(tmp).read():
+                    os.replace(tmp, dst)
+                else:
+                    os.remove(tmp)
+                rep[os.path.join(pkgdir, f)] = dst
+        write_overlay("overlay-" + pf[:-4] + ".json", rep)
